@@ -222,7 +222,97 @@ def replay_obj_second(model):
     return bad, {"what": f"objective at the generating parameters, first gas then second gas at the same p_initial: relative sizes {worst} (must be 0)"}
 
 
+def replay_obj_dict_table(model):
+    """Real objective evaluated twice at the generating parameters with the PVT table given as a plain dict of arrays (a
+    Mapping is a documented table type): both evaluations are zero and the caller's table is as it was."""
+    import numpy as np
+    import warnings
+    from bluebonnet.forecast import forecast_pressure as fp
+    from bluebonnet.flow import FlowProperties, SinglePhaseReservoir
+    from bluebonnet.fluids import build_pvt_gas
+    from lmfit import Parameters
+    gv = {"N2": 0.0, "H2S": 0.0, "CO2": 0.0, "Gas Specific Gravity": 0.65, "Reservoir Temperature (deg F)": 200.0}
+    frame = build_pvt_gas(gv, "dry gas", 6000)
+    table = {c: np.array(frame[c], dtype=float) for c in frame.columns}
+    keep = {c: v.copy() for c, v in table.items()}
+    days = np.arange(6.0)
+    pf = np.array([3000.0, 2800.0, 2500.0, 2500.0, 2200.0, 2000.0])
+    tau, M, pi = 400.0, 5000.0, 4500.0
+    with warnings.catch_warnings():
+        warnings.simplefilter("ignore")
+        r = SinglePhaseReservoir(80, pi, pi, FlowProperties(frame, pi))
+        r.simulate(days / tau, pressure_fracface=pf)
+        prod = M * np.asarray(r.recovery_factor(), float)
+        par = Parameters()
+        par.add("tau", value=tau)
+        par.add("M", value=M)
+        par.add("p_initial", value=pi)
+        problems = []
+        for call in (1, 2):
+            res = np.asarray(fp._obj_function(par, days, prod, table, pf), float)
+            if np.any(np.abs(res) > 1e-9 * (1 + np.abs(prod))):
+                problems.append(f"evaluation {call} at the generating parameters with a dict table: objective {res.tolist()} (must be 0)")
+            changed = [c for c in keep if c not in table or not np.array_equal(table[c], keep[c])] + [c for c in table if c not in keep]
+            if changed:
+                problems.append(f"after evaluation {call} the caller's dict table differs in {changed}")
+    return bool(problems), {"what": "; ".join(problems[:2]) or "dict table: objective zero on both evaluations, table untouched"}
+
+
 # ------------------------------------------------------------------ jobs
+
+def job_objective_dict_table(job):
+    """The objective with the library's OWN FlowProperties (executed symbolically) on a PVT table given as a dict of arrays:
+    two evaluations in a row (an optimiser makes hundreds) hand the same flow properties to the reservoir and leave the
+    caller's table alone."""
+    from . import c09
+    from .common import snapshot, touched
+    fpmod = c09._load()
+    mod = load_sym("bluebonnet.forecast.forecast_pressure", pd=pd_shim.PD, FlowProperties=fpmod.FlowProperties, SinglePhaseReservoir=_ResStub,
+                   Parameters=ParametersStub, Minimizer=MinimizerStub, **SS.rebind())
+    job.encoded(mod, "_obj_function")
+    job.encoded(fpmod, "FlowProperties.__init__")
+    job.stub("SinglePhaseReservoir: recording stub; FlowProperties: the library's own class on a symbolic 3-row table")
+    n = 3
+    tab, ps, dom = c09._table(n, c09.LONG)
+    days = SymArray([fresh(f"day{k}") for k in range(n)], "f8")
+    prod = SymArray([fresh(f"prod{k}") for k in range(n)], "f8")
+    pf = SymArray([fresh(f"pf{k}") for k in range(n)], "f8")
+    tau, M, pi = fresh("tau", pos=True), fresh("M"), fresh("p_init", pos=True)
+    dom = dom + [T.b_le(P(ps[0]), P(pi)), T.b_le(P(pi), P(ps[-1]))]
+    par = ParametersStub()
+    par.add("tau", value=tau)
+    par.add("M", value=M)
+    par.add("p_initial", value=pi)
+
+    def run():
+        import warnings
+        Rec.log.clear()
+        SS.reset_names()
+        table = {k: v.copy() for k, v in tab.items()}
+        snap = snapshot(table)
+        with warnings.catch_warnings():
+            warnings.simplefilter("ignore")
+            mod._obj_function(par, days, prod, table, pf)
+            t1 = touched(snap)
+            mod._obj_function(par, days, prod, table, pf)
+        fluids = [e[1][3] for e in Rec.log if e[0] == "SinglePhaseReservoir"]
+        return t1, touched(snap), [(f.m_i, list(f.pvt_props["m-scaled"].d)) for f in fluids]
+    for k, pr in enumerate(paths(job, run, dom, catch=(Exception,), max_paths=64)):
+        if pr.exc is not None:
+            job.prove(f"objective[dict table]/raises {type(pr.exc).__name__}[path{k}]", pr.pc, bound="3-row table", replay=replay_obj_dict_table, note=repr(pr.exc)[:100])
+            continue
+        t1, t2, fl = pr.value
+        if t1 or t2:
+            job._violation(f"objective[dict table]/the caller's PVT table is left alone by an evaluation[path{k}]", {},
+                           {"what": f"after the first evaluation: {t1}; after the second: {t2}", "replayer": "replay_obj_dict_table", "replayer_kwargs": {}}, None)
+        else:
+            job.record(f"objective[dict table]/the caller's PVT table is left alone by an evaluation[path{k}]", "unsat", 0.0, note="effect check on the path")
+        if len(fl) == 2:
+            diff = [T.b_not(T.b_eq0(T.p_sub(P(fl[0][0]), P(fl[1][0]))))] + [T.b_not(T.b_eq0(T.p_sub(P(a), P(b)))) for a, b in zip(fl[0][1], fl[1][1])]
+            job.prove(f"objective[dict table]/two evaluations in a row build the same flow properties[path{k}]", pr.pc + [T.b_or(*diff)], bound="3-row table",
+                      replay=replay_obj_dict_table)
+        job.prove(f"objective[dict table]/reach[path{k}]", pr.pc, expect="sat")
+
 
 def job_objective(job):
     mod = _load()
@@ -435,7 +525,7 @@ FALLBACK = [(replay_fit, {"pattern": _OK19}), (replay_fit, {"pattern": _OK19, "w
 
 
 def jobs(tier):
-    out = [("objective", job_objective)]
+    out = [("objective", job_objective), ("objective-dict-table", job_objective_dict_table)]
     pats = [("ok", "ok", "ok"), ("ok", "zero", "ok", "ok"), ("ok", "nan", "ok", "ok"), ("ok", "gasnan", "ok", "ok")]
     if tier != "quick":
         pats += [("zero", "ok", "nan", "ok", "ok"), ("ok", "ok", "ok", "ok", "ok"), ("ok", "zero", "zero", "ok", "gasnan", "ok", "ok"),
